@@ -182,13 +182,16 @@ CHECKS.update({
         text='Coq theorems: HookMap.run executes a subsequence of THE stable ascending sort of the attached hooks (permutation, sorted, '
              'stable); after the first failing hook exactly the remaining failsafe hooks run once each in order whatever they do and '
              'the point raises; on_end_resource runs exactly once in respond() for every environment; per-function bounds of every '
-             'hook point (documented order); on_end_request runs at most once per request object over a whole server session with any '
-             'number of close() calls and internal redirects - in terminating sessions exactly once for exactly the requests '
-             'whose close() got past its guard - and never inside Request.run. The pipeline skeletons are regenerated '
-             'from /repo on every run (ties by reflexivity); probe hooks x faults x streaming outcomes are run through the real '
-             'pipeline and the extracted model and journals (hook point, hook ids) compared.',
-        note='that close() is CALLED on every served request is not proved (needs an invariant over request identities the abstraction '
-             'does not track): covered by the differential fault enumeration and the oracle; assumes the server calls close().',
+             'hook point (documented order); and the full end-hook clause: in every terminating server session - any handler, '
+             'hooks, error pages, body iterator, start_response failures, any number of close() calls, internal redirects - '
+             'on_end_request has run EXACTLY ONCE for every request object that was served (c09_end_request_exactly_once: at most '
+             'once by a counting invariant over the close() idiom, at least once by an abstract interpretation of the request '
+             'identities proved sound w.r.t. the semantics), and never inside Request.run. All of it is proved for any skeleton '
+             'program passing flow_checks; the skeletons are regenerated from /repo on every run, the kernel re-evaluates '
+             'flow_checks on them and the theorems are re-instantiated; probe hooks x faults x streaming outcomes are run through '
+             'the real pipeline and the extracted model (running the regenerated program) and journals compared.',
+        note='Assumes the WSGI server calls close() on the returned iterable and engine listeners do not raise; hooks raising '
+             'KeyboardInterrupt/SystemExit are outside the failsafe clause; values abstracted to hook ids and exception kinds.',
         technique='Coq proof (stable-sort/failsafe lemmas + counting invariants over source-generated skeletons) + reflexivity ties + fault-injection correspondence', ref='6/C09'),
 })
 
